@@ -231,7 +231,9 @@ func RunAsync(u *Universe, opts GraphOptions, ops []Op, watchdog time.Duration, 
 	if !opts.NoLookups {
 		lookups = calc.NewLookupsCache()
 	}
-	acg := calc.NewAsyncCalcGraph(conf, []chan<- any{outC}, nil, lookups)
+	// As felix/daemon does: the graph gets its own copy of the config ("Copy to avoid concurrent
+	// access"), the validation filter keeps the original.
+	acg := calc.NewAsyncCalcGraph(conf.Copy(), []chan<- any{outC}, nil, lookups)
 	filter := calc.NewValidationFilter(acg, conf)
 	dec := calc.NewSyncerCallbacksDecoupler()
 	go dec.SendTo(filter)
